@@ -1,6 +1,7 @@
 import Model
 import Proofs.Walk
 import Proofs.DepGlobal
+import Proofs.DepAll
 import Proofs.Deadline
 import Proofs.BackGlobal
 import Proofs.WFCheck
@@ -91,6 +92,30 @@ theorem forward_deps_respected_elab (p : RawProj) (h : wfCheck (elaborate p).env
     ∀ dt v, dateOf (runScenario (elaborate p).env) dp = some dt →
       ((runScenario (elaborate p).env).tst t).start = some v → dt + dp.gap ≤ v :=
   forward_deps_respected _ (wfCheck_sound _ h) t hel hs hf dp hd hx
+
+/-- **C04 for whole projects (forward mode), every kind of predecessor** (`Proofs/DepAll`): the same for predecessors that
+    are containers — `depends !c0`, an edge inherited from an enclosing container onto a container, `precedes` from a
+    container: the successor starts at or after the container's end (its start, for an on-start edge) plus the gap, the
+    container's dates being those of the final schedule (a container marked scheduled keeps its dates: the roll-up skips
+    it and `finishScenario` recomputes the same minimum and maximum).  Needs the task tree to be well-formed (`Tree`:
+    children are declared after their parents — what the parser produces, checked by `treeCheck`). -/
+theorem forward_deps_respected_all (e : Env) (wf : WF e) (tr : Tree e) (t : Nat) (hel : FwdEff e t)
+    (hs : ((runScenario e).tst t).scheduled = true) (hf : ((runScenario e).tst t).forward = true)
+    (dp : Dep) (hd : dp ∈ (e.taskD t).allDeps) :
+    ((runScenario e).tst dp.target).scheduled = true ∧
+    ∀ dt v, dateOf (runScenario e) dp = some dt → ((runScenario e).tst t).start = some v → dt + dp.gap ≤ v :=
+  runScenario_depsOKAll e wf tr t hel
+    (runScenario_scheduled_done e t ⟨hel.leaf, hel.effort, hel.nomile⟩ hs) hf dp hd
+
+theorem forward_deps_respected_all_elab (p : RawProj) (h : wfCheck (elaborate p).env = true)
+    (htr : treeCheck (elaborate p).env = true) (t : Nat) (hel : FwdEff (elaborate p).env t)
+    (hs : ((runScenario (elaborate p).env).tst t).scheduled = true)
+    (hf : ((runScenario (elaborate p).env).tst t).forward = true)
+    (dp : Dep) (hd : dp ∈ ((elaborate p).env.taskD t).allDeps) :
+    ((runScenario (elaborate p).env).tst dp.target).scheduled = true ∧
+    ∀ dt v, dateOf (runScenario (elaborate p).env) dp = some dt →
+      ((runScenario (elaborate p).env).tst t).start = some v → dt + dp.gap ≤ v :=
+  forward_deps_respected_all _ (wfCheck_sound _ h) (treeCheck_sound _ htr) t hel hs hf dp hd
 
 /-- non-vacuity: b (1 h) depends on a (20 min) with a gap of 90 min, one resource: a well-formed project in which
     b is a forward effort task with one edge to a leaf -/
